@@ -541,6 +541,23 @@ func TestC06Payload(t *testing.T) {
 			labels = append(labels, "rel:"+f.Form)
 		}
 
+		// Another request handled just before this one (same schema, same
+		// type, most fields set): accepted, or refused because its id is a
+		// number. Nothing of it may show in the result under test.
+		if rapid.IntRange(0, 3).Draw(t, "previous") == 0 {
+			prev := gen.ResourcePayload(t, ts, gen.PayloadOpts{Canonical: true, AllFieldsOften: true}).Text
+			if rapid.Bool().Draw(t, "previous-refused") {
+				prev = `{"id":666,` + prev[1:]
+			}
+
+			oracle.Try(func() {
+				_, _ = jsonapi.UnmarshalResource([]byte(prev), ss.Schema)
+				_, _ = jsonapi.UnmarshalPartialResource([]byte(prev), ss.Schema)
+			})
+
+			labels = append(labels, "after-another-request")
+		}
+
 		if p := oracle.Try(func() { res, err = jsonapi.UnmarshalResource([]byte(pc.Text), ss.Schema) }); p != nil {
 			for _, a := range ts.Attrs {
 				if l, ok := pc.Attrs[a.Name]; ok && bytesPanicKnown(a, l.Text, p) && kf.Known(sigBytesPanic) {
